@@ -2627,11 +2627,19 @@ fn format_slice(
 {
 	if let Some(ValueType::Char8) = argument.value_type().get_element_type()
 	{
-		let slice = Expression::Autocoerce {
-			expression: Box::new(argument.clone()),
-			coerced_type: ValueType::for_string_slice(),
+		let slice = match argument.value_type()
+		{
+			// A slice needs no coercion.
+			ValueType::Slice { .. } => argument.generate(llvm)?,
+			_ =>
+			{
+				let slice = Expression::Autocoerce {
+					expression: Box::new(argument.clone()),
+					coerced_type: ValueType::for_string_slice(),
+				};
+				slice.generate(llvm)?
+			}
 		};
-		let slice = slice.generate(llvm)?;
 		let (slice_ptr, slice_len) =
 			generate_ptr_and_len_from_slice(slice, llvm)?;
 		buffer.add_specifier("%.*s");
